@@ -147,6 +147,9 @@ def replay(case):
 def run(rep, tier, seed):
     plan = dyn.standard_plan(tier, CHAINS, CHAINS_HI, held_lo='small' if tier == 'quick' else 'full', held_hi='two', sigma_hi='obj5')
     rep.bounds['chains'] = ['+'.join(c) for c in CHAINS]
+    # user-defined object types: a holdable that is not a Key, a subclass of Key
+    for sh in ((1, 2), (1, 3), (2, 2)):
+        plan.append(dict(shape=sh, sigma='custom4', k=2, held='custom', chains=[('pickndrop',), dyn.CHAIN_FULL], actions=R.ACTIONS))
     tot = dyn.run_universe(rep, plan, _worker, replay)
     if tier == 'quick':
         names, init_limit, max_states, gcap = ['keydoor.5x5', 'dynamic_obstacles.5x5', 'keydoor.7x7', 'teleport.5x5'], 200, 30000, 4
